@@ -16,6 +16,7 @@ import (
 	"testing"
 	"time"
 
+	hostsfilelib "github.com/kevinburke/hostsfile/lib"
 	"github.com/saucelabs/forwarder"
 	"github.com/saucelabs/forwarder/internal/zzverif/vstat"
 	"github.com/saucelabs/forwarder/ruleset"
@@ -118,8 +119,26 @@ var (
 	env4Err  error
 )
 
+// labHostsFile is the hosts file every proxy of this process reads its localhost aliases from: the machine's own file
+// plus loopback records whose names are not all lower case (hosts files are written by people and by tools; names are
+// case-insensitive whatever the spelling in the file) and an IPv6 one. The path is handed to the library forwarder uses.
+var labHostsFile = func() string {
+	b, _ := os.ReadFile("/etc/hosts")
+	b = append(b, []byte("\n127.0.0.1\tBuild-Agent-07 lower-alias\n127.0.0.66 UPPER.ALIAS.TEST # a comment\n::1 Ip6-Alias\n10.9.8.7 Not-Loopback-Alias\n")...)
+	d, err := os.MkdirTemp("", "verif-hosts")
+	if err != nil {
+		return "/etc/hosts"
+	}
+	p := d + "/hosts"
+	if os.WriteFile(p, b, 0o644) != nil {
+		return "/etc/hosts"
+	}
+	hostsfilelib.Location = p
+	return p
+}()
+
 func hostsFileLoopbackNames() []string {
-	b, err := os.ReadFile("/etc/hosts")
+	b, err := os.ReadFile(labHostsFile)
 	if err != nil {
 		return nil
 	}
@@ -146,6 +165,12 @@ func env4LocalHosts() []string {
 	for _, a := range hostsFileLoopbackNames() {
 		if a != "localhost" {
 			l = append(l, a)
+			if v := strings.ToLower(a); v != a {
+				l = append(l, v)
+			}
+			if v := strings.ToUpper(a); v != a {
+				l = append(l, v)
+			}
 		}
 	}
 	return l
